@@ -419,8 +419,13 @@ func runC07(c *Ctx) {
 					}
 					if other.K == 'r' {
 						if site := p.callAt[other.Pos]; site != nil && fnIs(calleeOf(site), "rtpconn", "", "negotiate") {
-							if strings.Contains(types.ExprString(cs.Call.Args[2]), "err.Error()") {
-								okFail = true
+							// the message is that error's text
+							if ec, isCall := unparen(cs.Call.Args[2]).(*ast.CallExpr); isCall && len(ec.Args) == 0 {
+								if se, isSel := unparen(ec.Fun).(*ast.SelectorExpr); isSel && se.Sel.Name == "Error" {
+									if et := ff.term(se.X); et != nil && st.EqualUnder(et, other) {
+										okFail = true
+									}
+								}
 							}
 						}
 					}
@@ -942,7 +947,8 @@ func runC07Pairing(c *Ctx) {
 				return true
 			})
 			st, _ := ff.At(as)
-			if neg == nil || st == nil || !ff.DominatedByNode(as, neg) || !st.HasFact(mkFact(true, "eq", TNil(), &Term{K: 'r', Name: "res0", Pos: neg.Lparen})) {
+			// (a must-fact about the result of that call site: on every path here the call was made and returned nil)
+			if neg == nil || st == nil || !st.HasFact(mkFact(true, "eq", TNil(), &Term{K: 'r', Name: "res0", Pos: neg.Lparen})) {
 				okClear = false
 			}
 			return true
